@@ -287,13 +287,14 @@ pub fn describe_column(
         };
         let has_cv_pages = pcv.is_some();
         let (ord, fw, utf8) = values::order_of(&lt);
+        let badec = cd.physical_type() == PhysType::BYTE_ARRAY && matches!(lt, DataType::Decimal128(..) | DataType::Decimal256(..) | DataType::Decimal64(..) | DataType::Decimal32(..));
         tr.emit(json!({
             "op": "new", "ty": format!("{:?}", field.data_type()), "leaf": format!("{lt:?}"), "phys": format!("{}", cd.physical_type()),
             "sort_order": format!("{:?}", cd.sort_order()), "ord": ord, "fw": fw, "utf8": utf8, "stats": stats_level, "cfg": cfg, "rg": g, "col": c,
             "rep": cd.max_rep_level() > 0,
             "dictin": matches!(field.data_type(), DataType::Dictionary(..)),
             "tci": tci,
-            "badec": cd.physical_type() == PhysType::BYTE_ARRAY && matches!(lt, DataType::Decimal128(..) | DataType::Decimal256(..) | DataType::Decimal64(..) | DataType::Decimal32(..)),
+            "badec": badec,
         }));
         let mut chunk_lens: std::collections::BTreeSet<usize> = Default::default();
         let sbbf = rg.get_column_bloom_filter(c);
@@ -324,6 +325,9 @@ pub fn describe_column(
             ev.insert("vals".into(), Value::Array(keys));
             ev.insert("rows".into(), json!(rows));
             ev.insert("mixedlen".into(), json!(page_lens.len() > 1));
+            // BYTE_ARRAY decimals: the stored bytes of the non-null values, in page order
+            let raw: Vec<Vec<u8>> = if badec { dec.vals.iter().filter_map(|v| if let Phys::Bytes(b) = v { Some(b.clone()) } else { None }).collect() } else { vec![] };
+            ev.insert("raw".into(), json!(raw));
             // column index entry
             let ci_here = ci.filter(|x| (x.num_pages() as usize) == data.len());
             ev.insert("ci".into(), json!(ci_here.is_some()));
